@@ -9,8 +9,8 @@ RULE = ("sessions of GET / SET / ACTION operations on one association of a real 
         "without data, unexpected answers; plain, pre-established and ciphered (general-glo-ciphering, suite 0) connections. "
         "The same session runs on the model (abstract APDUs). search: returned bytes = concatenation, acknowledgements carry "
         "the block numbers and the invoke id, READY afterwards, errors raise.  non-trivial = distinct sessions")
-ASSUMPTIONS = ["a session ends at its first failing operation: after a refused APDU the library leaves the bytes in its receive "
-               "buffer (C07's concern), which the abstract model does not follow"]
+ASSUMPTIONS = ["a session goes on after an error answer (the association must be usable again); it ends at an answer of the wrong "
+               "kind, which the association refuses and which leaves the request outstanding"]
 NAMED = dict(D.NAMED, DataResultError=8, ActionError=9)
 
 
